@@ -2,7 +2,7 @@ use std::io::Write;
 
 use hashbrown::HashSet;
 use nom::{
-    Finish, IResult, Parser,
+    Finish, IResult, Input, Parser,
     branch::alt,
     bytes::complete::{is_not, tag, take_till, take_until, take_while},
     character::complete::{char, multispace1},
@@ -680,15 +680,17 @@ fn terminal(mut input: Span) -> IResult<Span, String> {
         input = after;
 
         // an optional sequence of escaped characters
-        while let Some(after) = input.strip_prefix('\\') {
-            input = after.into();
+        while input.starts_with('\\') {
+            // Advance the located span itself (rather than re-wrapping the rest of the text) so
+            // that everything after an escape keeps its line and column.
+            input = input.take_from(1);
             if input.starts_with([
                 '(', ')', '[', ']', '<', '>', '|', ';', '"', '{', '}', '\\', '.',
             ]) {
-                let mut chars = input.chars();
-                term.push(chars.next().unwrap());
+                let escaped = input.chars().next().unwrap();
+                term.push(escaped);
                 consumed += 1;
-                input = chars.as_str().into();
+                input = input.take_from(escaped.len_utf8());
             } else {
                 // escaped non-special character
                 return fail().parse(input);
